@@ -89,6 +89,31 @@ def aba_family():
     return progs
 
 
+def clock_family():
+    """The version clock is lock-free: a write with an explicit timestamp ahead of the clock is being
+    recorded in its shard (load .. compare-exchange) while another thread draws an automatic timestamp
+    from the same shard.  Once the explicit write has returned, an automatic write to the key must be
+    accepted.  The only decision points are the loads of the clock shard (hook verif::atomics)."""
+    progs = []
+    far = NOW + 500 * E9
+    explicit = {
+        "bytes": [("ins", {"op": "insert", "k": 1, "v": B3, "auto": False, "tsv": far}),
+                  ("insb", {"op": "insert", "k": 1, "v": B3, "auto": False, "tsv": far, "bytes": True}),
+                  ("cas", {"op": "cas", "k": 1, "x": B1, "v": B3, "auto": False, "tsv": far}),
+                  ("del", {"op": "delete", "k": 1, "auto": False, "tsv": far})],
+        "counter": [("incr", {"op": "incr", "k": 1, "d": 2, "auto": False, "tsv": far})],
+        "doc": [("patch", {"op": "patch", "k": 1, "ps": 3, "pt": -1, "auto": False, "tsv": far})],
+    }
+    drawers = {"bytes": ["ins_auto", "patch", "del_auto", "ttl"], "counter": ["incr", "ins_auto"], "doc": ["patch", "ins_auto"]}
+    for iname, exs in explicit.items():
+        for en, e in exs:
+            for d in drawers[iname]:
+                p = prog(INITS[iname], [[e, OPS["ins_auto"]], [OPS[d]]])
+                p["points"] = ["clock_load"]
+                progs.append(("clock|%s|%s|%s" % (iname, en, d), p))
+    return progs
+
+
 def pers_lww_family():
     """Persistent store, the key's value offloaded to the device: a read-then-replace operation with an
     explicit timestamp T races with an upsert carrying a NEWER timestamp and the flush that writes it
